@@ -1,6 +1,7 @@
 import AC.BigintsTie
 import AC.Halving
 import AC.CF
+import AC.ProgramTie
 /-! # The translated `Halving.Suggest` / `DeltaLargest.Suggest` equal their models (C08)
 
 Regenerated from alg/heuristic/heuristic.go on every run (`AC/Gen/ProgramFns.lean`). The Go functions
@@ -149,5 +150,101 @@ theorem dichotomicK_tie (n : Int) (hn : 0 ≤ n) :
   have hne : (2 : Int) ^ (bitLenN n.toNat / 2) ≠ 0 := by
     have := two_pow_pos_int (bitLenN n.toNat / 2); omega
   simp [hl, hu, hp, bDiv, hne]
+
+end AC.HeurTie
+
+namespace AC.HeurTie
+open AC.Gen.Program AC.GoPrim AC.BigPrim P
+
+theorem bSign_neg (d : Int) : decide (bSign d < 0) = decide (d < 0) := by
+  unfold bSign
+  by_cases h : d < 0
+  · simp [h]
+  · by_cases h0 : d = 0 <;> simp [h, h0]
+
+theorem bCmp_lt (a b : Int) : decide (bCmp a b < 0) = decide (a < b) := by
+  unfold bCmp
+  by_cases h : a < b
+  · simp [h]
+  · by_cases h0 : a = b <;> simp [h, h0]
+
+theorem containsSorted_eq (f : List Int) (hs : f.Pairwise (· ≤ ·)) (x : Int) :
+    bigintsContainsSorted x f = f.contains x := by
+  unfold bigintsContainsSorted
+  rw [Bool.eq_iff_iff, P.Helpers.containsSorted_iff x f hs]
+  simp
+
+theorem approx_loop_tie (f : List Int) (t : Int) (hs : f.Pairwise (· ≤ ·)) :
+    ∀ (fuel l rp : Nat) (st : ApSt) (delta insert : Int), rp ≤ fuel + l → rp ≤ f.length →
+    heuristicApproximationSuggest_loop1 fuel f t delta insert st.mindelta st.best st.first (l : Int) ((rp : Int) - 1) =
+      some [approxLoop f t l rp st] := by
+  intro fuel
+  induction fuel with
+  | zero =>
+    intro l rp st delta insert hf _
+    have hc : ¬ ((l : Int) ≤ (rp : Int) - 1) := by omega
+    have hb : approxLoop f t l rp st = st.best := by
+      cases rp with
+      | zero => simp [approxLoop]
+      | succ rp => unfold approxLoop; have : ¬ l ≤ rp := by omega
+                   simp [this]
+    simp [heuristicApproximationSuggest_loop1, hc, hb]
+  | succ fuel ih =>
+    intro l rp st delta insert hf hrl
+    by_cases hc : (l : Int) ≤ (rp : Int) - 1
+    · obtain ⟨rp', rfl⟩ : ∃ rp', rp = rp' + 1 := ⟨rp - 1, by omega⟩
+      have hl : l ≤ rp' := by omega
+      have hr : ((rp' + 1 : Nat) : Int) - 1 = (rp' : Int) := by omega
+      have hcI : (l : Int) ≤ (rp' : Int) := by omega
+      have e1 : idx f (l : Int) = some (at' f l) := AC.ProgramTie.idx_at' f l (by omega)
+      have e2 : idx f (rp' : Int) = some (at' f rp') := AC.ProgramTie.idx_at' f rp' (by omega)
+      rw [hr]
+      unfold approxLoop
+      have hsign : ∀ d : Int, (bSign d < 0) ↔ d < 0 := by
+        intro d; unfold bSign
+        by_cases h : d < 0
+        · simp [h]
+        · by_cases h0 : d = 0 <;> simp [h, h0]
+      have hcmp : ∀ a b : Int, (bCmp a b < 0) ↔ a < b := by
+        intro a b; unfold bCmp
+        by_cases h : a < b
+        · simp [h]
+        · by_cases h0 : a = b <;> simp [h, h0]
+      simp only [heuristicApproximationSuggest_loop1, hcI, decide_true, if_true, e1, e2, bind, Option.bind, pure,
+        bAdd, bSub, bSet, hsign, hcmp, hl, containsSorted_eq f hs]
+      by_cases hd : t - (at' f l + at' f rp') < 0
+      · have := ih l rp' st (t - (at' f l + at' f rp')) insert (by omega) (by omega)
+        simp only [hd, decide_true, if_true]
+        exact this
+      · simp only [hd, decide_false, Bool.false_eq_true, if_false]
+        by_cases hmem : at' f l + (t - (at' f l + at' f rp')) ∈ f
+        · simp [hmem]
+        · by_cases hu : st.first = true ∨ t - (at' f l + at' f rp') < st.mindelta
+          · have := ih (l + 1) (rp' + 1)
+              ⟨false, t - (at' f l + at' f rp'), at' f l + (t - (at' f l + at' f rp'))⟩
+              (t - (at' f l + at' f rp')) (at' f l + (t - (at' f l + at' f rp'))) (by omega) hrl
+            rw [hr] at this
+            push_cast at this
+            simp [hmem, hu, this]
+          · have := ih (l + 1) (rp' + 1) st (t - (at' f l + at' f rp'))
+              (at' f l + (t - (at' f l + at' f rp'))) (by omega) hrl
+            rw [hr] at this
+            push_cast at this
+            simp [hmem, hu, this]
+    · have hb : approxLoop f t l rp st = st.best := by
+        cases rp with
+        | zero => simp [approxLoop]
+        | succ rp => unfold approxLoop; have : ¬ l ≤ rp := by omega
+                     simp [this]
+      simp [heuristicApproximationSuggest_loop1, hc, hb]
+
+/-- translated `Approximation.Suggest` on a sorted protosequence = the model's suggestion -/
+theorem approx_tie (f : List Int) (t : Int) (hs : f.Pairwise (· ≤ ·)) :
+    heuristicApproximationSuggest f t = suggestApprox f t := by
+  unfold heuristicApproximationSuggest suggestApprox
+  have hfuel : Int.toNat ((len f - 1 - 0) + 1) = f.length := by simp [len]
+  have := approx_loop_tie f t hs f.length 0 f.length ⟨true, 0, 0⟩ 0 0 (by omega) (Nat.le_refl _)
+  simp only [hfuel, bNewInt, bind, Option.bind, len]
+  simpa [len] using this
 
 end AC.HeurTie
